@@ -137,3 +137,42 @@ func Ifaces() []net.Interface {
 // goroutine captures, no other goroutine may enter any prefix handler. Callers of prefix
 // handlers hold the read side; NewSys-style constructors hold the write side.
 var PrefixGate sync.RWMutex
+
+// L4 is a socket-less DHCPv4 listener that lives across several datagrams (listener state
+// is part of the history).
+type L4 struct {
+	l   *server.VerifListener4
+	cur *Out
+}
+
+// NewL4 creates a persistent listener. It holds the process-global L2 frame sink until Close.
+func NewL4(ifi net.Interface, hs []handler.Handler4) *L4 {
+	v4mu.Lock()
+	x := &L4{}
+	x.l = server.NewVerifListener4(ifi, hs, &server.VerifIO{Sent: func(s server.VerifSent) { x.cur.Sent = append(x.cur.Sent, s) }})
+	server.VerifSetFrameSink(func(f server.VerifFrame) { x.cur.Frames = append(x.cur.Frames, f) })
+	return x
+}
+
+// Handle pushes one datagram through the listener.
+func (x *L4) Handle(dgram []byte, oobIf int) (out Out) {
+	x.cur = &out
+	var oob *ipv4.ControlMessage
+	if oobIf != 0 {
+		oob = &ipv4.ControlMessage{IfIndex: oobIf}
+	}
+	defer func() {
+		if e := recover(); e != nil {
+			out.Panic = fmt.Sprintf("%v\n%s", e, trimStack(debug.Stack()))
+		}
+	}()
+	buf := append(make([]byte, 0, server.MaxDatagram), dgram...)
+	x.l.HandleMsg4(buf, oob, &net.UDPAddr{IP: net.IPv4zero, Port: 68})
+	return
+}
+
+func (x *L4) Close() {
+	server.VerifSetFrameSink(nil)
+	x.l.Release()
+	v4mu.Unlock()
+}
